@@ -15,7 +15,8 @@
 (*         attributes of the group, space separated; otherwise ""          *)
 (*   refs  references made by the entity outside function bodies           *)
 (*   locals (func def) parameters, blocks and instructions in layout order *)
-(*         [n, lk, refs], lk in "param" "block" "inst" "void"              *)
+(*         [n, lk, refs], lk in "param" "block" "inst" "void" "invoke"     *)
+(*         "lpad" (invoke: a value-producing terminator; lpad: landingpad) *)
 (* Reference [rk, to, aux]: rk names the reference site (its prefix the    *)
 (* index it is looked up in), `to` the target name, aux the block name of  *)
 (* a blockaddress / uselistorder_bb reference or the incoming value of a   *)
@@ -109,7 +110,7 @@ Patterns == <<
      Md("7", <<Ref("g.mdvalue", "g")>>), NamedMd("m", <<Ref("m.named", "0")>>), NamedMd("a", <<Ref("m.named", "7")>>),
      Global("g", <<Ref("m.attach", "7")>>), Decl("f", <<Ref("m.attach", "0")>>) >>,
   \* 7: attribute groups out of order, one defined twice, function attributes, comdat on a function, personality
-  << AttrB("10", "nounwind cold"), Attr("2"), AttrB("10", "noinline nounwind"),
+  << AttrB("10", "nounwind cold"), Attr("2"), AttrB("10", "noinline nounwind readnone"),
      Def("f", <<Ref("a.func", "10"), Ref("c.func", "c"), Ref("g.personality", "p")>>, << Loc("entry", "block", <<>>), Loc("", "void", <<Ref("g.callee", "p"), Ref("a.call", "2")>>) >>),
      Decl("p", <<Ref("a.func", "2")>>), Comdat("c") >>,
   \* 8: ifunc, resolver, unnamed globals between named ones, alias of an unnamed global
@@ -143,6 +144,12 @@ Patterns == <<
   \* 17: use-list order of a blockaddress constant (the constant is created while the directive is translated)
   << Global("a", <<RefX("l.baddr", "f", "bb")>>), Global("b", <<RefX("l.baddr", "f", "bb")>>),
      Def("f", <<>>, << Loc("entry", "block", <<Ref("l.target", "bb")>>), Loc("bb", "block", <<>>) >>), UloBA("f", "bb") >>,
+  \* 19: a value-producing terminator (invoke) whose result is used, with its landing pad
+  << Decl("h", <<Ref("ty.sig", "a")>>), TStruct("a", <<>>), Decl("p", <<>>),
+     Def("f", <<Ref("g.personality", "p")>>, << Loc("c", "param", <<>>), Loc("entry", "block", <<>>), Loc("g", "inst", <<Ref("l.operand", "c")>>),
+        Loc("x", "invoke", <<Ref("g.callee", "h"), Ref("l.target", "bb"), Ref("l.target", "r")>>),
+        Loc("bb", "block", <<>>), Loc("y", "inst", <<Ref("l.operand", "x")>>),
+        Loc("r", "block", <<>>), Loc("m", "lpad", <<>>) >>) >>,
   \* 18: the type of a global (address space) read through a use in another global's initialiser
   << GlobalAS("g", <<>>), Global("h", <<Ref("g.cmp", "g")>>), Global("a", <<Ref("g.cmp", "g")>>), Alias("b", <<Ref("g.aliasee", "g")>>) >>
 >>
